@@ -251,6 +251,55 @@ def dmig_part(run, bulk, np, pd):
             run.sample({"dmig M": M, "form": form, "entries": entries})
 
 
+def perms_part(run, bulk, np):
+    """id lists in any order (BulkLists Mode "perms"): every arrangement of up to MaxN distinct ids from a pool of MaxN+1, two offsets"""
+    cfg = "MC_BulkLists_perms.cfg" if run.tier == "quick" else "MC_BulkLists_perms_t.cfg"
+    res = tlc.run("BulkLists", cfg, timeout=1200, heap="6g")
+    if res.violation:
+        run.add_tlc(cfg, res)
+        run.violation("TLC: %s on the BulkLists model" % res.violation, {"tlc": res.error_text()}, {"where": "model"})
+        return
+    run.add_tlc(cfg, res, "every arrangement of up to MaxN distinct ids out of MaxN+1 x 2 offsets; PermLaws")
+    for ids, runs in res.tagged("PERM"):
+        ids = list(ids)
+        case = {"ids": ids}
+        run.case(("perm", tuple(ids)), nontrivial=ids != sorted(ids) and any(r[0] != r[1] for r in runs), part="id lists in any order")
+
+        def fail(what, **kw):
+            run.violation(what, dict(case, **kw), {"fn": what.split(":")[0]})
+        for arr in (ids, np.array(ids)):
+            try:
+                f = io.StringIO()
+                bulk.wtspoints(f, arr)
+                txt = f.getvalue()
+                if text_ids_small(txt, "SPOINT") != ids:
+                    fail("wtspoints: the cards do not denote exactly the given ids in the given order (neutral field parse)", text=txt)
+                back = bulk.rdspoints(io.StringIO(txt))
+                if [int(x) for x in back] != ids:
+                    fail("wtspoints/rdspoints: ids read back %r" % ([int(x) for x in back],), text=txt)
+            except Exception as ex:
+                fail("wtspoints: raised %r" % ex)
+        for ml in (72, 36):
+            try:
+                f = io.StringIO()
+                bulk.wtset(f, 7, ids, max_length=ml)
+                txt = f.getvalue()
+                back = bulk.rdsets(io.StringIO(txt))
+                if list(back.keys()) != [7] or [int(x) for x in back[7]] != ids:
+                    fail("wtset/rdsets(max_length=%d): read back %r" % (ml, back), text=txt)
+            except Exception as ex:
+                fail("wtset: raised %r" % ex)
+        try:
+            f = io.StringIO()
+            bulk.wtcsuper(f, 55, ids)
+            back = bulk.rdcsupers(io.StringIO(f.getvalue()))
+            if [int(x) for x in back[55]][2:] != ids:
+                fail("wtcsuper/rdcsupers: read back %r" % (back[55],), text=f.getvalue())
+        except Exception as ex:
+            fail("wtcsuper: raised %r" % ex)
+        run.trace_validated()
+
+
 def geometry_part(run, bulk, np):
     """GRID / CORD2x / USET-to-bulk round trips (values to field precision, ids and order exact)"""
     from pyyeti.nastran import n2p
@@ -302,6 +351,46 @@ def geometry_part(run, bulk, np):
                               dict(case, text=txt, got=str(back.get(7) if isinstance(back, dict) else back), want=want.tolist()), {"fn": "wtcoordcards"})
         except Exception as ex:
             run.violation("wtcoordcards/rdcord2cards: raised %r" % ex, case, {"fn": "wtcoordcards"})
+        # USET table of several grids (input and output systems drawn from basic and the chain 7 <- 9 <- 11, in any order, so that basic
+        # grids sit before, between and after the grids in local systems) -> uset2bulk -> bulk2uset: same grids in the same order, same
+        # locations and transforms to the precision of the cards; and every system on the CORD2x cards is the one in the table
+        try:
+            cmap = {0: 0, 7: cards[0], 9: cards[1], 11: cards[2]}
+            ng = int(rng.integers(2, 7))
+            gids = sorted(rng.choice(np.arange(1, 5000), ng, replace=False).tolist())   # a USET table is in id order (bulk2uset sorts)
+            cins = rng.choice([0, 7, 9, 11], ng).tolist()
+            couts = rng.choice([0, 0, 7, 9, 11], ng).tolist()
+            if trial % 3 == 0:
+                couts[0] = 0                                  # a basic grid ahead of the local ones
+            cref = {}
+            for c_ in cards:                                  # make the chain known (7, then 9 on 7, then 11 on 9)
+                n2p.addgrid(None, 1, "b", c_, [1.0, 2.0, 3.0], c_, coordref=cref)
+            ut = None
+            for g, a_, b_ in zip(gids, cins, couts):
+                loc = np.round(rng.standard_normal(3) * 4, 3) + [3.0, 1.0, 1.0]
+                ut = n2p.addgrid(ut, g, "b", cmap[a_], loc, cmap[b_], coordref=cref)
+            ucase = dict(case, uset_grids=gids, cin=cins, cout=couts)
+            f = io.StringIO()
+            bulk.uset2bulk(f, ut)
+            txt = f.getvalue()
+            u2, _cr = bulk.bulk2uset(io.StringIO(txt))
+            if list(u2.index) != list(ut.index) or u2.shape != ut.shape or not np.allclose(u2.values.astype(float), ut.values.astype(float), atol=1e-7):
+                run.violation("uset2bulk/bulk2uset: USET table read back differs (grid order, locations or transforms)",
+                              dict(ucase, text=txt), {"fn": "uset2bulk"})
+            f = io.StringIO()
+            bulk.wtcoordcards(f, n2p.mkcordcardinfo(ut))
+            back = bulk.rdcord2cards(io.StringIO(f.getvalue()))
+            for k, b_ in enumerate(couts):
+                if b_ == 0:
+                    continue
+                want = ut.iloc[6 * k + 1:6 * k + 6, 1:4].values.astype(float)
+                got = back.get(b_) if isinstance(back, dict) else None
+                if got is None or not np.allclose(np.asarray(got), want, atol=1e-7):
+                    run.violation("mkcordcardinfo/wtcoordcards/rdcord2cards: system %d read back differs from the one in the USET table" % b_,
+                                  dict(ucase, text=f.getvalue(), got=str(got), want=want.tolist()), {"fn": "wtcoordcards"})
+                    break
+        except Exception as ex:
+            run.violation("uset2bulk/bulk2uset: raised %r" % ex, case, {"fn": "uset2bulk"})
         run.trace_validated()
 
 
@@ -317,6 +406,7 @@ def body(run: Run, replay):
                 "lists with >= 2 runs one of which is THRU-compressible; DMIG with at least one entry")
     run.assumptions = ["values compared to the precision of the written format", "text parsed by a neutral fixed-column cell splitter"]
     lists_part(run, bulk, np)
+    perms_part(run, bulk, np)
     dmig_part(run, bulk, np, pd)
     geometry_part(run, bulk, np)
 
